@@ -77,16 +77,23 @@ Qed.
 
 Lemma try_indices_cases c f d idx o :
   try_indices c f d idx = Some o ->
-  o = OOom \/ exists i ip, In i idx /\ resolve_fully f d [i] = FPath ip /\
-                           path_prefixb (s_root c) ip = true /\ o = serve_file c f ip.
+  o = OOom \/ o = ORaise (lit "oserror") \/
+  exists i ip, In i idx /\ resolve_fully f (fst (pjoin d i)) (snd (pjoin d i)) = FPath ip /\
+               path_prefixb (s_root c) ip = true /\ name_too_long ip = false /\ o = serve_file c f ip.
 Proof.
-  induction idx as [|i rest IH]; simpl; [discriminate|].
-  destruct (resolve_fully f d [i]) as [ip| |] eqn:E.
-  - destruct (path_prefixb (s_root c) ip && match lstat f ip with Some (File _) => true | _ => false end) eqn:E2.
-    + intro H; inversion H; subst. right. exists i, ip.
-      apply andb_true_iff in E2 as [E2 _]. auto.
-    + intro H. destruct (IH H) as [->|[i' [ip' [Hin Hr]]]]; [auto|]. right. exists i', ip'. tauto.
-  - intro H. destruct (IH H) as [->|[i' [ip' [Hin Hr]]]]; [auto|]. right. exists i', ip'. tauto.
+  induction idx as [|i rest IH]; cbn [try_indices]; [discriminate|]. cbv zeta.
+  assert (IH' : try_indices c f d rest = Some o ->
+    o = OOom \/ o = ORaise (lit "oserror") \/
+    exists i0 ip, In i0 (i :: rest) /\ resolve_fully f (fst (pjoin d i0)) (snd (pjoin d i0)) = FPath ip /\
+                  path_prefixb (s_root c) ip = true /\ name_too_long ip = false /\ o = serve_file c f ip).
+  { intro H. destruct (IH H) as [->|[->|[i' [ip' [Hin Hr]]]]]; [auto|auto|].
+    right; right. exists i', ip'. split; [right; assumption|assumption]. }
+  destruct (existsb (mem 0%N) (snd (pjoin d i))); [exact IH'|].
+  destruct (resolve_fully f (fst (pjoin d i)) (snd (pjoin d i))) as [ip| |] eqn:E; [|exact IH'|].
+  - destruct (path_prefixb (s_root c) ip) eqn:E2; [|exact IH'].
+    destruct (name_too_long ip) eqn:E3; [intro H; inversion H; auto|].
+    destruct (lstat f ip) as [[ct| |tg]|]; try exact IH'.
+    intro H; inversion H; subst. right; right. exists i, ip. split; [left; reflexivity|auto].
   - intro H; inversion H; auto.
 Qed.
 
@@ -144,7 +151,7 @@ Proof.
   pose proof (handle_shape_ok c f url) as S. rewrite H in S. clear H.
   inversion S as [| | |up segs fp o U Cn Z Rf Pf Nl Alt]; subst.
   destruct Alt as [[Hd Ht]|[[Hd [Ht [Hl Ho]]]|[Hd Ho]]].
-  - apply try_indices_cases in Ht. destruct Ht as [Ht|[i [ip [Hi [Hr [Hp Ho]]]]]]; [discriminate|].
+  - apply try_indices_cases in Ht. destruct Ht as [Ht|[Ht|[i [ip [Hi [Hr [Hp [_ Ho]]]]]]]]; [discriminate|discriminate|].
     symmetry in Ho. apply serve_file_OServe in Ho. destruct Ho as [-> Hc].
     split; [assumption|]. split; [|assumption]. eapply resolve_fully_FPath; eauto.
   - destruct (listing_cases f fp) as [E|E]; rewrite E in Ho; discriminate.
@@ -165,7 +172,7 @@ Proof.
   pose proof (handle_shape_ok c f url) as S. rewrite H in S. clear H.
   inversion S as [| | |up segs fp o U Cn Z Rf Pf Nl Alt]; subst.
   destruct Alt as [[Hd Ht]|[[Hd [Ht [Hl Ho]]]|[Hd Ho]]].
-  - apply try_indices_cases in Ht. destruct Ht as [Ht|[i [ip [Hi [Hr [Hp Ho]]]]]]; [discriminate|].
+  - apply try_indices_cases in Ht. destruct Ht as [Ht|[Ht|[i [ip [Hi [Hr [Hp [_ Ho]]]]]]]]; [discriminate|discriminate|].
     symmetry in Ho. apply serve_file_not_listing in Ho. contradiction.
   - destruct (listing_cases f fp) as [E|E]; rewrite E in Ho; [discriminate|].
     inversion Ho; subst. repeat split; auto. eapply resolve_fully_FPath; eauto.
@@ -191,7 +198,7 @@ Proof.
   inversion S as [|E| |up segs fp o U Cn Z Rf Pf Nl Alt]; subst.
   - left; auto.
   - destruct Alt as [[Hd Ht]|[[Hd [Ht [Hl Ho]]]|[Hd Ho]]].
-    + apply try_indices_cases in Ht. destruct Ht as [Ht|[i [ip [Hi [Hr [Hp Ho]]]]]]; [discriminate|].
+    + apply try_indices_cases in Ht. destruct Ht as [Ht|[Ht|[i [ip [Hi [Hr [Hp [_ Ho]]]]]]]]; [discriminate|discriminate|].
       symmetry in Ho. eapply serve_file_status; eauto.
     + destruct (listing_cases f fp) as [E|E]; rewrite E in Ho; [|discriminate].
       inversion Ho; subst. right; right; right. auto.
@@ -336,7 +343,8 @@ Inductive upload_shape (c : ucfg) (f : fs) (r : ureq) (flt : fault) : uout -> fs
     mkdirs (S (length t)) f [] (removelast t) = Some f1 ->
     upload_shape c f r flt u_ok (set_node f1 t (File (q_content r))).
 
-Lemma upload_shape_ok c f r flt : upload_shape c f r flt (fst (handle_upload c f r flt)) (snd (handle_upload c f r flt)).
+Lemma upload_shape_ok c f r flt tok :
+  upload_shape c f r flt (fst (handle_upload c f r flt tok)) (snd (handle_upload c f r flt tok)).
 Proof.
   unfold handle_upload.
   destruct (token_ok c (q_token r)) eqn:E1; cbn [fst snd negb]; [|apply USame; discriminate].
@@ -355,31 +363,28 @@ Proof.
     destruct (lstat f t) as [[ct| |tg]|]; cbn [fst snd negb]; try (apply USame; discriminate);
       (apply UDelete; auto; lia).
   - destruct (resolve_target c f (q_path r)) as [[t|]| |] eqn:E6; cbn [fst snd negb]; try (apply USame; discriminate).
-    destruct (name_too_long t); cbn [fst snd negb]; [apply USame; discriminate|].
+    destruct (name_too_long (removelast t)); cbn [fst snd negb]; [apply USame; discriminate|].
     destruct (mkdirs (S (length t)) f [] (removelast t)) as [f1|] eqn:E7; cbn [fst snd negb]; [|apply USame; discriminate].
-    destruct flt as [k|]; cbn [fst snd negb]; [eapply UPartial; eauto; discriminate|].
-    assert (St : forall out f2, (out, f2) = match t with
-                       | [] => (UResp 40 (lit "Upload failed"), f1)
-                       | _ => (UResp 20 (lit "text/gemini"), set_node f1 t (File (q_content r)))
-                       end -> upload_shape c f r None out f2).
-    { intros out f2 H. destruct t as [|x t']; inversion H; subst.
-      - eapply UPartial; eauto; discriminate.
-      - eapply UStore; eauto. lia. }
-    destruct (lstat f1 t) as [[ct| |tg]|]; cbn [fst snd negb];
-      try (apply St; destruct t; reflexivity).
-    eapply UPartial; eauto; discriminate.
+    assert (P : forall out, out <> u_ok -> upload_shape c f r flt out f1)
+      by (intros out Ho; eapply UPartial; eauto).
+    destruct t as [|x t']; cbn [fst snd]; [apply P; discriminate|].
+    destruct (name_too_long (tmp_of (x :: t') tok)); cbn [fst snd]; [apply P; discriminate|].
+    destruct (lstat f1 (tmp_of (x :: t') tok)); cbn [fst snd]; [apply P; discriminate|].
+    destruct flt as [k|]; cbn [fst snd]; [apply P; discriminate|].
+    destruct (lstat f1 (x :: t')) as [[ct| |tg]|]; cbn [fst snd];
+      try (apply P; discriminate); (eapply UStore; eauto; lia).
 Qed.
 
-Lemma upload_shape_eq c f r flt out f' :
-  handle_upload c f r flt = (out, f') -> upload_shape c f r flt out f'.
-Proof. intro H. pose proof (upload_shape_ok c f r flt) as S. rewrite H in S. exact S. Qed.
+Lemma upload_shape_eq c f r flt tok out f' :
+  handle_upload c f r flt tok = (out, f') -> upload_shape c f r flt out f'.
+Proof. intro H. pose proof (upload_shape_ok c f r flt tok) as S. rewrite H in S. exact S. Qed.
 
-Lemma exact : forall c f r f' t,
-  handle_upload c f r None = (UResp 20 (lit "text/gemini"), f') -> q_size r <> 0 ->
+Lemma exact : forall c f r tok f' t,
+  handle_upload c f r None tok = (UResp 20 (lit "text/gemini"), f') -> q_size r <> 0 ->
   resolve_target c f (q_path r) = Ok (Some t) ->
   path_prefixb (u_root c) t = true /\ lstat f' t = Some (File (q_content r)).
 Proof.
-  intros c f r f' t H Hs Ht. apply upload_shape_eq in H.
+  intros c f r tok f' t H Hs Ht. apply upload_shape_eq in H.
   inversion H as [out Ho|t' G Z D Rt|t' f1 out Ho Mk|t' f1 G Z Fl Rt Mk]; subst.
   - exfalso; apply Ho; reflexivity.
   - contradiction.
@@ -389,12 +394,12 @@ Proof.
     + apply lstat_set_same.
 Qed.
 
-Lemma delete_ok : forall c f r flt f' t,
-  handle_upload c f r flt = (UResp 20 (lit "text/gemini"), f') -> q_size r = 0 ->
+Lemma delete_ok : forall c f r flt tok f' t,
+  handle_upload c f r flt tok = (UResp 20 (lit "text/gemini"), f') -> q_size r = 0 ->
   resolve_target c f (q_path r) = Ok (Some t) ->
   lstat f' t = None /\ u_delete c = true.
 Proof.
-  intros c f r flt f' t H Hs Ht. apply upload_shape_eq in H.
+  intros c f r flt tok f' t H Hs Ht. apply upload_shape_eq in H.
   inversion H as [out Ho|t' G Z D Rt|t' f1 out Ho Mk|t' f1 G Z Fl Rt Mk]; subst.
   - exfalso; apply Ho; reflexivity.
   - rewrite Ht in Rt. inversion Rt; subst t'. split; [apply lstat_remove_same|assumption].
@@ -406,12 +411,12 @@ Lemma is_file_None_Dir a b : a = None -> b = Some Dir ->
   Spec.C14.is_file a = true \/ Spec.C14.is_file b = true -> False.
 Proof. intros -> ->. simpl. intros []; discriminate. Qed.
 
-Lemma guards : forall c f r flt out f' p,
-  handle_upload c f r flt = (out, f') -> lstat f' p <> lstat f p ->
+Lemma guards : forall c f r flt tok out f' p,
+  handle_upload c f r flt tok = (out, f') -> lstat f' p <> lstat f p ->
   (Spec.C14.is_file (lstat f p) = true \/ Spec.C14.is_file (lstat f' p) = true) ->
   Spec.C14.guards_ok c r = true.
 Proof.
-  intros c f r flt out f' p H Hne Hf. apply upload_shape_eq in H.
+  intros c f r flt tok out f' p H Hne Hf. apply upload_shape_eq in H.
   inversion H as [out' Ho|t' G Z D Rt|t' f1 out' Ho Mk|t' f1 G Z Fl Rt Mk]; subst.
   - congruence.
   - assumption.
@@ -420,11 +425,11 @@ Proof.
   - assumption.
 Qed.
 
-Lemma failure_noop : forall c f r flt out f' p,
-  handle_upload c f r flt = (out, f') -> out <> UResp 20 (lit "text/gemini") ->
+Lemma failure_noop : forall c f r flt tok out f' p,
+  handle_upload c f r flt tok = (out, f') -> out <> UResp 20 (lit "text/gemini") ->
   Spec.C14.is_file (lstat f p) = true \/ Spec.C14.is_file (lstat f' p) = true -> lstat f' p = lstat f p.
 Proof.
-  intros c f r flt out f' p H Hout Hf. apply upload_shape_eq in H.
+  intros c f r flt tok out f' p H Hout Hf. apply upload_shape_eq in H.
   inversion H as [out' Ho|t' G Z D Rt|t' f1 out' Ho Mk|t' f1 G Z Fl Rt Mk]; subst.
   - reflexivity.
   - exfalso; apply Hout; reflexivity.
@@ -433,13 +438,13 @@ Proof.
   - exfalso; apply Hout; reflexivity.
 Qed.
 
-Lemma frame : forall c f r flt out f' p,
-  handle_upload c f r flt = (out, f') ->
+Lemma frame : forall c f r flt tok out f' p,
+  handle_upload c f r flt tok = (out, f') ->
   lstat f' p <> lstat f p ->
   (lstat f p = None /\ lstat f' p = Some Dir) \/
   (out = UResp 20 (lit "text/gemini") /\ resolve_target c f (q_path r) = Ok (Some p)).
 Proof.
-  intros c f r flt out f' p H Hne. apply upload_shape_eq in H.
+  intros c f r flt tok out f' p H Hne. apply upload_shape_eq in H.
   inversion H as [out' Ho|t' G Z D Rt|t' f1 out' Ho Mk|t' f1 G Z Fl Rt Mk]; subst.
   - congruence.
   - destruct (path_eqb p t') eqn:E.
@@ -636,6 +641,9 @@ Qed.
 
 Lemma goodn_index i : In i index_names -> goodn i.
 Proof. intros [<-|[<-|[]]]; repeat split; discriminate. Qed.
+(* the default index names are single relative components *)
+Lemma pjoin_index d i : In i index_names -> pjoin d i = (d, [i]).
+Proof. intros [<-|[<-|[]]]; reflexivity. Qed.
 
 Lemma location_is_candidate : forall c f url o loc p,
   (forall q n, In (q, n) f -> match n with Link _ => False | _ => True end) ->
@@ -652,8 +660,9 @@ Proof.
   unfold candidates. rewrite (rstrip_canon segs e NS' He).
   apply (resolve_fully_linkfree _ _ _ _ L) in Rf. rewrite (lexnorm_good _ G) in Rf. subst fp.
   destruct Alt as [[Hd Ht]|[[Hd [Ht [Hls Ho]]]|[Hd Ho]]].
-  - apply try_indices_cases in Ht. destruct Ht as [->|[i [ip [Hin [Hr [Hpp Ho]]]]]]; [discriminate|].
-    apply (resolve_fully_linkfree _ _ _ _ L) in Hr. rewrite Hi in Hin.
+  - apply try_indices_cases in Ht. destruct Ht as [->|[->|[i [ip [Hin [Hr [Hpp [_ Ho]]]]]]]]; [discriminate|discriminate|].
+    rewrite Hi in Hin. rewrite (pjoin_index _ _ Hin) in Hr. cbn [fst snd] in Hr.
+    apply (resolve_fully_linkfree _ _ _ _ L) in Hr.
     rewrite (lexnorm_good [i]) in Hr by (constructor; [apply goodn_index; assumption|constructor]).
     subst ip.
     destruct (serve_file_cases c f ((s_root c ++ segs) ++ [i])) as [E|[E|[E|[ct [t [_ [_ [_ E]]]]]]]];
